@@ -335,3 +335,49 @@ def w_ftables_edit(job):
             'outcomes': {'must-kept': nontrivial - nviol, 'kept': sum(len(g) for _, g in results)},
             'extra': {'violations': nviol}, 'viol': viol,
             'sample': {'filter': name, 'q': q, 'padding': padding, 'threshold': t, 'strings': len(S)}}
+
+
+def w_ftables_reassigned(job):
+    """A filter object used once, then its documented `threshold` attribute reassigned: filter_tables,
+    filter_candset and filter_pair must not drop any pair that meets the *current* threshold."""
+    from checks.setjoin import gen_tables
+    prop = job.get('prop', 'C04')
+    pres = PRESENTATIONS[job.get('pres', 0)]
+    name, meas = job['filter'], job['meas']
+    lvals, rvals = gen_tables(job['gen'], pres)
+    L = mkframe(lvals, pres, prefix='l')
+    R = mkframe(rvals, pres, prefix='r')
+    lm, rm = masks_for(lvals, rvals, ['ws', True], ranked=True)
+    viol = []
+    nviol = calls = nontrivial = 0
+    for (t0, t1) in job['pairs']:
+        f = make_filter(name, make_tokenizer(['ws', True]), meas, t0)
+        call_filter_tables(f, L, R, n_jobs=1)
+        lib(f.filter_pair, lvals[-1], rvals[-1])
+        f.threshold = t1
+        out = call_filter_tables(f, L, R, n_jobs=job.get('n_jobs', 1))
+        got, _ = pairs_of(out, L, R)
+        calls += 2
+        judge = PairJudge(meas, t1, '>=')
+        for i, a in enumerate(lm):
+            for j, b in enumerate(rm):
+                if not a or not b:
+                    continue
+                if judge(a.bit_count(), b.bit_count(), (a & b).bit_count())[0] != 'must':
+                    continue
+                nontrivial += 1
+                bad = None
+                if (i, j) not in got:
+                    bad = 'filter_tables'
+                elif lib(f.filter_pair, lvals[i], rvals[j]):
+                    bad = 'filter_pair'
+                if bad:
+                    nviol += 1
+                    if len(viol) < MAXV:
+                        viol.append({'key': '%s|reassigned|%s|%s|%r->%r|%d|%d' % (prop, name, meas, t0, t1, a, b),
+                                     'what': '%s: %sFilter(%s) built with threshold %r, used, then threshold set to %r: %s '
+                                             'drops left=%r right=%r, which meets the current threshold' % (
+                                                 prop, name, meas, t0, t1, bad, lvals[i], rvals[j]), 'detail': {}})
+    return {'cases': calls, 'calls': calls, 'nontrivial': nontrivial,
+            'outcomes': {'must-kept': nontrivial - nviol, 'x': 1}, 'extra': {'violations': nviol}, 'viol': viol,
+            'sample': {'filter': name, 'measure': meas, 'threshold_changes': job['pairs'][:3]}}
